@@ -24,7 +24,7 @@ FLOAT_OPS = {"Add": "Add", "Subtract": "Sub", "Multiply": "Mul", "Divide": "Div"
 def _operand_side(f, op):
     """which sub-expression field (left/right/operand) an operand's value was evaluated from"""
     sides = set()
-    for o in F.origins(f, op, depth=16):
+    for o in F.origins(f, op, depth=48):
         if o.kind == "call" and short(o.call.name) == EVAL and len(o.call.args) > 1:
             for o2 in F.origins(f, o.call.args[1], depth=8, through_calls=True):
                 if o2.place is not None and isinstance(o2.place, dict) and "p" in o2.place:
